@@ -15,6 +15,7 @@ import (
 	"github.com/yuin/goldmark/parser"
 	"github.com/yuin/goldmark/renderer"
 	"github.com/yuin/goldmark/renderer/html"
+	"github.com/yuin/goldmark/util"
 	"pgregory.net/rapid"
 )
 
@@ -42,6 +43,11 @@ type Config struct {
 	// includes tel:, javascript:, data:, file:, vbscript: together with a URL pattern accepting any scheme
 	// (every linkified URL is still an AutoLink the safe renderer must vet)
 	LinkProto int
+	// RChan: how the renderer options reach the core HTML renderer: 0 goldmark.WithRendererOptions (by option name,
+	// through SetOption); 1 as functional options of html.NewRenderer, installed with goldmark.WithRenderer(
+	// renderer.NewRenderer(renderer.WithNodeRenderers(...))) - the other documented way. Only for configurations
+	// whose extension renderers do not consult these switches themselves (no TaskList, no Footnote).
+	RChan int
 }
 
 var linkProtos = []string{"https:", "ftp:", "http:", "tel:", "x-app:", "javascript:", "data:", "file:", "vbscript:", "JavaScript:"}
@@ -99,6 +105,9 @@ func (c Config) String() string {
 	if c.FnOpt != 0 && c.Footnote {
 		p = append(p, "fno"+string(rune('0'+c.FnOpt)))
 	}
+	if c.RChan != 0 && !c.HasTask() && !c.Footnote {
+		p = append(p, "rch"+string(rune('0'+c.RChan)))
+	}
 	if c.LinkProto != 0 && c.Linkify && !c.GFM {
 		p = append(p, "lpr"+string(rune('0'+c.LinkProto)))
 	}
@@ -154,6 +163,9 @@ func ParseConfig(s string) Config {
 			}
 			if strings.HasPrefix(tok, "fno") && len(tok) == 4 {
 				c.FnOpt = int(tok[3]-'0') % 3
+			}
+			if strings.HasPrefix(tok, "rch") && len(tok) == 4 {
+				c.RChan = int(tok[3]-'0') % 2
 			}
 			if strings.HasPrefix(tok, "lpr") && len(tok) == 4 {
 				c.LinkProto = int(tok[3]-'0') % 3
@@ -300,6 +312,23 @@ func (c Config) RendererOptions() []renderer.Option {
 
 // Fresh builds a brand-new instance.
 func (c Config) Fresh() goldmark.Markdown {
+	if c.RChan == 1 && !c.HasTask() && !c.Footnote {
+		var ho []html.Option
+		if c.Unsafe {
+			ho = append(ho, html.WithUnsafe())
+		}
+		if c.XHTML {
+			ho = append(ho, html.WithXHTML())
+		}
+		if c.HardWraps {
+			ho = append(ho, html.WithHardWraps())
+		}
+		return goldmark.New(
+			goldmark.WithRenderer(renderer.NewRenderer(renderer.WithNodeRenderers(util.Prioritized(html.NewRenderer(ho...), 1000)))),
+			goldmark.WithExtensions(c.Extensions()...),
+			goldmark.WithParserOptions(c.ParserOptions()...),
+		)
+	}
 	return goldmark.New(
 		goldmark.WithExtensions(c.Extensions()...),
 		goldmark.WithParserOptions(c.ParserOptions()...),
@@ -348,6 +377,8 @@ var Representative = []Config{
 	{Typo: true, TypoOff: 1, GFM: true, XHTML: true},
 	{GFM: true, Footnote: true, FnPrefix: 4, DefList: true},
 	{Footnote: true, FnOpt: 1, Table: true, Linkify: true, LinkProto: 2},
+	{RChan: 1, XHTML: true, HardWraps: true},
+	{RChan: 1, Unsafe: true, XHTML: true, Table: true, Strike: true, DefList: true, Typo: true, CJK: 1, AutoID: true},
 	{Footnote: true, FnOpt: 2, FnPrefix: 1, XHTML: true, Linkify: true, LinkProto: 1, Strike: true},
 }
 
@@ -394,6 +425,9 @@ func DrawConfig(t *rapid.T, o ConfigOpts) Config {
 		if b(1) && b(16) {
 			c.LinkProto = 1 + int((bits>>24)%2)
 		}
+		if b(19) && b(23) {
+			c.RChan = 1
+		}
 	}
 	if o.SafeOnly {
 		c.Unsafe = false
@@ -415,6 +449,9 @@ func DrawConfig(t *rapid.T, o ConfigOpts) Config {
 	}
 	if !c.Linkify || c.GFM {
 		c.LinkProto = 0
+	}
+	if c.HasTask() || c.Footnote {
+		c.RChan = 0
 	}
 	if !c.Typo {
 		c.TypoOff = 0
